@@ -31,9 +31,9 @@ pub fn vx_notify_all(txs: &mut HashMap<u64, oneshot::Sender<()>>) { unimplemente
 /// C18 invariant: every pending table-refresh timeout is the one the refresh object remembers -- hence at most one
 pub open spec fn chain_ok(r: TableRefresh, t: Timer<ScheduledTaskCheck>) -> bool {
     t.wf()
-    && (forall|id: int| #[trigger] t.pending@.contains_key(id) && t.pending@[id].0 is TableRefresh ==> r.next_refresh is Some && r.next_refresh->0.id as int == id)
+    && (forall|k: Timeout| #[trigger] t.pending@.contains_key(k) && t.pending@[k] is TableRefresh ==> r.next_refresh == Some(k))
     && (r.next_refresh is Some ==> r.next_refresh->0.id < t.next_id
-            && (t.pending@.contains_key(r.next_refresh->0.id as int) ==> t.pending@[r.next_refresh->0.id as int].0 is TableRefresh))
+            && (t.pending@.contains_key(r.next_refresh->0) ==> t.pending@[r.next_refresh->0] is TableRefresh))
 }
 /// a refresh query: find_node with an 8-byte transaction id carrying the refresh action's 5-byte prefix
 pub open spec fn refresh_query(m: Message, action: u64) -> bool {
@@ -41,8 +41,8 @@ pub open spec fn refresh_query(m: Message, action: u64) -> bool {
     && forall|t: TransactionID| #[trigger] t.bytes@ == m.transaction_id@ ==> tid_value(t) >> 24 == action >> 24
 }
 //@props C18
-pub proof fn lemma_single_chain(r: TableRefresh, t: Timer<ScheduledTaskCheck>, a: int, b: int)
-    requires chain_ok(r, t), t.pending@.contains_key(a), t.pending@[a].0 is TableRefresh, t.pending@.contains_key(b), t.pending@[b].0 is TableRefresh
+pub proof fn lemma_single_chain(r: TableRefresh, t: Timer<ScheduledTaskCheck>, a: Timeout, b: Timeout)
+    requires chain_ok(r, t), t.pending@.contains_key(a), t.pending@[a] is TableRefresh, t.pending@.contains_key(b), t.pending@[b] is TableRefresh
     ensures a == b // @C18.at_most_one_pending_refresh_round
 {}
 
@@ -65,11 +65,12 @@ impl TableRefresh {
             chain_ok(*final(self), *final(timer)), // @C18.single_refresh_chain
             final(self).id_generator.action_id == old(self).id_generator.action_id,
             // exactly one refresh round is pending afterwards, 6 s ahead
-            final(self).next_refresh is Some && final(timer).pending@.contains_key(final(self).next_refresh->0.id as int)
-                && final(timer).pending@[final(self).next_refresh->0.id as int] == (ScheduledTaskCheck::TableRefresh, 6_000_000_000nat), // @C18.next_round_scheduled_6s_ahead
+            final(self).next_refresh is Some && final(timer).pending@.contains_key(final(self).next_refresh->0)
+                && final(timer).pending@[final(self).next_refresh->0] is TableRefresh
+                && final(self).next_refresh->0.deadline.t as int == tclock() + 6_000_000_000, // @C18.next_round_scheduled_6s_ahead
             // every other timeout is untouched
-            forall|id: int| !(old(timer).pending@.contains_key(id) && old(timer).pending@[id].0 is TableRefresh) && id != final(self).next_refresh->0.id
-                ==> (final(timer).pending@.contains_key(id) == old(timer).pending@.contains_key(id) && (old(timer).pending@.contains_key(id) ==> final(timer).pending@[id] == old(timer).pending@[id])), // @C18.other_timeouts_untouched
+            forall|k: Timeout| !(old(timer).pending@.contains_key(k) && old(timer).pending@[k] is TableRefresh) && k != final(self).next_refresh->0
+                ==> (final(timer).pending@.contains_key(k) == old(timer).pending@.contains_key(k) && (old(timer).pending@.contains_key(k) ==> final(timer).pending@[k] == old(timer).pending@[k])), // @C18.other_timeouts_untouched
             // a round sends at most 4 find_node queries (8-byte transaction ids of the refresh action) and nothing else
             only_requests_and_yields(old(tr).ev, final(tr).ev), no_yield(old(tr).ev, final(tr).ev), final(tr).ev.len() <= old(tr).ev.len() + 8, // @C18.round_is_at_most_4_queries
             forall|i: int| old(tr).ev.len() <= i < final(tr).ev.len() && #[trigger] final(tr).ev[i] is Send ==> refresh_query(final(tr).ev[i]->Send_0, old(self).id_generator.action_id), // @C19.refresh_queries_carry_8_byte_ids_of_the_refresh_action
@@ -632,13 +633,14 @@ impl DhtHandler {
         self.active_stores.wf() && self.refresh.curr_refresh_bucket <= 160 && chain_ok(self.refresh, self.timer)
     }
     pub open spec fn one_refresh_pending(&self) -> bool {
-        self.refresh.next_refresh is Some && self.timer.pending@.contains_key(self.refresh.next_refresh->0.id as int)
-            && self.timer.pending@[self.refresh.next_refresh->0.id as int] == (ScheduledTaskCheck::TableRefresh, 6_000_000_000nat)
+        self.refresh.next_refresh is Some && self.timer.pending@.contains_key(self.refresh.next_refresh->0)
+            && self.timer.pending@[self.refresh.next_refresh->0] is TableRefresh
+            && self.refresh.next_refresh->0.deadline.t as int == tclock() + 6_000_000_000
     }
     /// timeouts other than the refresh round are untouched
     pub open spec fn frame_non_refresh(&self, o: DhtHandler) -> bool {
-        forall|id: int| !(o.timer.pending@.contains_key(id) && o.timer.pending@[id].0 is TableRefresh) && id != self.refresh.next_refresh->0.id
-            ==> (self.timer.pending@.contains_key(id) == o.timer.pending@.contains_key(id) && (o.timer.pending@.contains_key(id) ==> self.timer.pending@[id] == o.timer.pending@[id]))
+        forall|k: Timeout| !(o.timer.pending@.contains_key(k) && o.timer.pending@[k] is TableRefresh) && k != self.refresh.next_refresh->0
+            ==> (self.timer.pending@.contains_key(k) == o.timer.pending@.contains_key(k) && (o.timer.pending@.contains_key(k) ==> self.timer.pending@[k] == o.timer.pending@[k]))
     }
 
     /// stand-in for `*self.bootstrap.state_rx.borrow() == State::Bootstrapped` (a watch channel written by the bootstrap task)
